@@ -1,6 +1,7 @@
 package main
 
 import (
+	"encoding/json"
 	"fmt"
 	"strings"
 
@@ -148,6 +149,7 @@ func c10reference(prefer bool, e *hEnv, block [][2]string) ([][2]string, error) 
 
 func init() {
 	props["C10"] = func(rng *sx.Rng, thorough bool) {
+		c10nilEnv()
 		n := 4000
 		if thorough {
 			n = 80000
@@ -296,6 +298,35 @@ func init() {
 				envMap.Set(block[len(block)-1][0], block[len(block)-1][1])
 				stat("C10", "block-assembled-with-tombstone")
 			}
+			// no caller environment at all: the library supplies an empty one, and everything else - the flag
+			// included - is as with an empty environment handed over
+			if it%2 == 1 {
+				mk := func() *pipeline.Pipeline {
+					m := ordered.NewMap[string, string](0)
+					for _, pr := range block {
+						m.Set(pr[0], pr[1])
+					}
+					return &pipeline.Pipeline{Env: m, Steps: pipeline.Steps{&pipeline.CommandStep{Command: probe.raw}}}
+				}
+				pNil, pEmpty := mk(), mk()
+				var eNil, eEmpty error
+				func() {
+					defer func() {
+						if r := recover(); r != nil {
+							eNil = fmt.Errorf("panic: %v", r)
+						}
+					}()
+					eNil = pNil.Interpolate(nil, prefer)
+					eEmpty = pEmpty.Interpolate(pipeline.VerifEnvFromMap(true, map[string]string{}), prefer)
+				}()
+				jNil, _ := json.Marshal(pNil)
+				jEmpty, _ := json.Marshal(pEmpty)
+				if (eNil == nil) != (eEmpty == nil) || eNil == nil && string(jNil) != string(jEmpty) {
+					oracleFail("C10", "nil-env", c, fmt.Sprintf("with no environment (prefer=%v) the result is %s (err %v), with an empty environment %s (err %v)", prefer, jNil, eNil, jEmpty, eEmpty))
+					continue
+				}
+				stat("C10", "nil-env")
+			}
 			p := &pipeline.Pipeline{Env: envMap, Steps: pipeline.Steps{&pipeline.CommandStep{Command: probe.raw}}}
 			refEnv := env.clone()
 			useLib := it%3 == 1 && !rawClash
@@ -397,6 +428,57 @@ func init() {
 				nt = "1"
 			}
 			fmt.Fprintf(out, "CASE\tC10\t%s\t%s\t%s\n", sx.String(c), sx.String(sx.L(sx.A("ok"), bl, pv, sx.Opt(true, sx.A(p.Steps[0].(*pipeline.CommandStep).Command)))), nt)
+		}
+	}
+}
+
+// c10nilEnv: blocks in which a name is defined twice (the second time under a name that only expansion produces),
+// run without a caller environment and with an empty one, under both flag values: the same result, and under
+// runtime precedence the first export is what later entries and steps see while the block records the last value
+func c10nilEnv() {
+	for _, prefer := range []bool{false, true} {
+		for _, nm := range []string{"FOO", "X_1", "lower"} {
+			for _, pre := range []string{"${NOPE}", "${UNSET_P}", "${EMPTYV}"} {
+				for pos := 0; pos < 3; pos++ {
+					mk := func() *pipeline.Pipeline {
+						m := ordered.NewMap[string, string](0)
+						if pre == "${EMPTYV}" {
+							m.Set("EMPTYV", "")
+						}
+						for i := 0; i < pos; i++ {
+							m.Set(fmt.Sprintf("PAD%d", i), "p")
+						}
+						m.Set(nm, "first")
+						m.Set(pre+nm, "second")
+						m.Set("MSG", "is $"+nm)
+						return &pipeline.Pipeline{Env: m, Steps: pipeline.Steps{&pipeline.CommandStep{Command: "echo $" + nm + " / $MSG"}}}
+					}
+					c := sx.L(sx.A("nil-env-block"), sx.B(prefer), sx.A(nm), sx.A(pre), sx.N(pos))
+					pNil, pEmpty := mk(), mk()
+					eNil := pNil.Interpolate(nil, prefer)
+					eEmpty := pEmpty.Interpolate(pipeline.VerifEnvFromMap(true, map[string]string{}), prefer)
+					jNil, _ := json.Marshal(pNil)
+					jEmpty, _ := json.Marshal(pEmpty)
+					if (eNil == nil) != (eEmpty == nil) || string(jNil) != string(jEmpty) {
+						oracleFail("C10", "nil-env", c, fmt.Sprintf("with no environment the result is %s (err %v), with an empty environment %s (err %v)", jNil, eNil, jEmpty, eEmpty))
+						continue
+					}
+					seen := "second"
+					if prefer {
+						seen = "first"
+					}
+					want := "echo " + seen + " / is " + seen
+					if cmd := pNil.Steps[0].(*pipeline.CommandStep).Command; eNil != nil || cmd != want {
+						oracleFail("C10", "nil-env", c, fmt.Sprintf("prefer=%v: the step reads %q, want %q (err %v)", prefer, cmd, want, eNil))
+						continue
+					}
+					if v, _ := pNil.Env.Get(nm); v != "second" {
+						oracleFail("C10", "nil-env", c, fmt.Sprintf("the block records %q for %s, want the pipeline's last value \"second\"", v, nm))
+						continue
+					}
+					stat("C10", "nil-env-blocks")
+				}
+			}
 		}
 	}
 }
